@@ -37,7 +37,7 @@ BOUND = {k: v + "; plus: " + "list names with a dot next to their stem; a user-w
 
 LISTS = ["c", "c1", "d"]
 VARIANTS = ["plain", "filter", "rand", "randseed", "randseedref", "multi", "rank", "or_other", "shared", "search",
-            "multi_or_other", "unused", "fromrepeat", "fromrepeat-filter", "randfalse", "randfalseseed", "randfilter", "multirandfalse", "randseedexpr", "randseedexpr2", "search_rand", "search_multi", "fromrepeat-sibling", "search-after-token", "search-before-token", "search-nolabel"]
+            "multi_or_other", "unused", "fromrepeat", "fromrepeat-filter", "randfalse", "randfalseseed", "randfilter", "multirandfalse", "randseedexpr", "randseedexpr2", "search_rand", "search_multi", "fromrepeat-sibling", "fromrepeat-inside", "search-after-token", "search-before-token", "search-nolabel"]
 REJECT_VARS = {"search_rand", "search_multi"}  # a search() list may not be shared with a select that is not using search()
 
 
@@ -239,6 +239,12 @@ def build_lists(case):
         qs = [{"type": "begin repeat", "name": "rp", "label": "RP"}, {"type": "text", "name": "rq", "label": "RQ"}, {"type": "end repeat"},
               {"type": "begin group", "name": "rp_info", "label": "RI"}, {"type": "text", "name": "skip", "label": "SK"}, {"type": "end group"},
               {"type": "text", "name": "rp_x", "label": "RX"}, *qs]
+    elif v == "fromrepeat-inside":
+        # the select stands inside the repeat whose answers it lists, and its own logic cells mention the same question
+        sel["type"] = "select_one ${rq}"
+        sel["relevant"] = "${rq} != ''"
+        sel["constraint"] = ". != ${rq}"
+        qs = [qs[0], {"type": "begin repeat", "name": "rp", "label": "RP"}, {"type": "text", "name": "rq", "label": "RQ"}, sel, {"type": "end repeat"}]
     elif v in ("fromrepeat", "fromrepeat-filter"):
         # the select's items are the answers given to a question of a repeat
         sel["type"] = "select_one ${rq}"
@@ -327,7 +333,7 @@ def check_lists(case, wb, out, viol):
         return
     base = "/data" if case["place"] == "top" else "/data/w"
     ctrls = {ref: el for el, tag, ref, anc in obs.body_controls() if tag in ("select", "select1", "rank", "input")}
-    s_el = ctrls.get(f"{base}/s")
+    s_el = ctrls.get(f"{base}/rp/s" if v == "fromrepeat-inside" else f"{base}/s")
     if s_el is None:
         viol.append(("select-control-missing", ""))
         return
@@ -376,6 +382,15 @@ def check_lists(case, wb, out, viol):
             ok = bool(m) and m.group(1) == f"{base}/rp" and all(
                 Path(raw).ok and Path(raw).resolve(ctx) == [*base.strip("/").split("/"), *tail]
                 for raw, tail in ((m.group(2), ["rp_info", "skip"]), (m.group(3), ["rp_x"])))
+        if v == "fromrepeat-inside" and case["place"] == "repeat":
+            ok = len(its) == 1  # (both repeats inside a third one: which instances are meant is not fixed by the documentation; not judged)
+        elif v == "fromrepeat-inside" and len(its) == 1:
+            # the items are all instances of the repeat (a path ending in the step 'rp' that reaches the repeat's node), not the current one ('..')
+            from xmc.pathmodel import Path
+
+            m = re.match(r"^(\S+)\[ ?\./rq != '' ?\]$", norm_ws(its[0].get("nodeset") or ""))
+            bl = base.strip("/").split("/")
+            ok = bool(m) and m.group(1).rsplit("/", 1)[-1] == "rp" and Path(m.group(1)).ok and Path(m.group(1)).resolve([*bl, "rp", "s"]) == [*bl, "rp"]
         if ok:
             val, lab = its[0].find(O.X + "value"), its[0].find(O.X + "label")
             ok = val is not None and lab is not None and val.get("ref") == "rq" and lab.get("ref") == "rq"
